@@ -31,6 +31,11 @@ class WireManagerBase(abc.ABC):
     def grade(self) -> None:
         """Convert data from user or neighbour to Grading objects on wires"""
 
+    def reset(self) -> None:
+        """Forgets what grade() (and propagation) produced so that grading can be repeated"""
+        for wire in self.wires:
+            wire.grading = Grading(wire.length)
+
     @property
     def is_defined(self) -> bool:
         """Returns True if all gradings are defined on this axis"""
@@ -106,6 +111,10 @@ class WireChopManager(WireManagerBase):
 
         super().update()
 
+    def reset(self) -> None:
+        super().reset()
+        self.grading = Grading(0)
+
     def grade(self) -> None:
         self.update()
 
@@ -133,6 +142,11 @@ class WirePropagateManager(WireManagerBase):
 
     def update(self):
         super().update()
+
+    def reset(self) -> None:
+        super().reset()
+        # these were copied from a neighbour
+        self.chops = []
 
     def grade(self):
         """Checks each wire whether their coincidents (wires from other blocks)
